@@ -1002,6 +1002,10 @@ def cases(tier, rnd):
         c = {k: rnd.choice(v) for k, v in CORE.items()}
         c.update(n=rnd.choice([4, 4, 5, 6]), N=rnd.choice([1, 2, 5, 10]))
         out.append(_cfg(rnd, **c, **_rand_other(rnd)))
+    # a valid data set on a large CCF grid (>= 1000 points: the convolutions take the FFT path, whose round-off produces
+    # tiny negative values that must be floored before the log)
+    for g in ((1000,) if tier == "quick" else (1000, 1001, 1024)):
+        out.append(_cfg(rnd, n=3, G=g, N=2, num_iters=2, proposal=rnd.choice(["semi-adapted", "fully-adapted"])))
     # malformed / API-only: compared with the model's guards, never judged
     out += [_cfg(rnd, thin=0), _cfg(rnd, thin=0, burnin=2, n=1), _cfg(rnd, N=0), _cfg(rnd, N=0, n=3, burnin=2, op="1/2"),
             _cfg(rnd, pf=0), _cfg(rnd, num_iters=0), _cfg(rnd, num_iters=0, burnin=0)]
